@@ -140,7 +140,7 @@ class C17(Prop):
 
     def nrows(self, rng, big):
         if big:
-            return rng.choice([40, 80, 150, 300])
+            return rng.choice([40, 80, 150, 300, 300, 1200])      # 1200 rows: a chunk of the BED file longer than BufReader's 8 KiB
         return rng.choice([0, 1, 1, 2, 3, 5, 8, 12, 20])
 
     def valid_case(self, rng, tier, k):
